@@ -17,5 +17,199 @@ CONFIG = dict(
     assumptions=[],
 )
 
+# prefix universe and the shard `TableManager::dealer` (FNV over the derived Hash of Nlri) puts each
+# prefix in, for 1..3 shards; obtained once with the harness's `(probe K …)` case and verified by
+# the harness on every case (a wrong claim is answered with `(shard-mismatch i real)`).
+PFX = [(167837696 + 256 * i, 24) for i in range(8)] + [(167903232, 16), (2886729728, 16)]
+SHARD = {1: [0] * 10, 2: [0, 1, 0, 1, 0, 1, 0, 1, 1, 1], 3: [1, 0, 0, 2, 1, 0, 0, 2, 0, 0]}
+
+NBR = 167772161                      # 10.0.0.1, the observing neighbour
+LASN = 65001
+LLGR_STALE = 4294901766
+NHS = [167772418, 167772419, 3232235777]
+
+
+def sources(r, role):
+    """2-4 sources with distinct addresses; now and then one is the neighbour itself (echo)."""
+    pool = [
+        "(peer (v4 167772162) 65002 65001 33686018 ebgp f)",
+        "(peer (v4 167772163) 65003 65001 50529027 ebgp f)",
+        "(peer (v4 167772164) 65001 65001 67372036 ibgp f)",
+        "(peer (v4 167772165) 65001 65001 84215045 rrc f)",
+        "(peer (v4 167772166) 65006 65001 101058054 rsc f)",
+        "(peer (v4 167772167) 65101 65001 117901063 confed f)",
+        "local",
+    ]
+    # bias the pool towards sources the neighbour may actually hear from
+    if role == "rsc":
+        pool = pool + ["(peer (v4 167772168) 65008 65001 134744072 rsc f)"] * 3
+    n = 2 + r.below(3)
+    out = []
+    while len(out) < n:
+        s = r.pick(pool)
+        if s not in out:
+            out.append(s)
+    if r.chance(1, 4):
+        nrole = role
+        rasn = LASN if role in ("ibgp", "rrc") else 64999
+        out[r.below(len(out))] = "(peer (v4 %d) %d 65001 151587081 %s f)" % (NBR, rasn, nrole)
+    return out
+
+
+def asets(r):
+    n = 3 + r.below(3)
+    out = []
+    for i in range(n):
+        a = ["(val 1 %d)" % r.pick([0, 0, 1, 2])]
+        plen = r.pick([1, 1, 2])
+        a.append("(aspath (2%s))" % "".join(" %d" % r.pick([65010, 65011, 65012]) for _ in range(plen)))
+        if r.chance(1, 2):
+            a.append("(val 4 %d)" % r.pick([0, 10, 20]))
+        if r.chance(2, 3):
+            a.append("(val 5 %d)" % r.pick([50, 100, 100, 200, 300]))
+        if r.chance(1, 3):
+            a.append("(words 8%s)" % "".join(" %d" % r.pick([4259840100, 4259840200, LLGR_STALE]) for _ in range(1 + r.below(2))))
+        if r.chance(1, 8):
+            a.append("(val 9 %d)" % r.pick([33686018, 16843009]))
+        if r.chance(1, 8):
+            a.append("(words 10 16909060)")
+        if r.chance(1, 6):
+            a.append("(opq %d %d x%02x)" % (r.pick([99, 200]), r.pick([192, 224, 128]), r.below(256)))
+        out.append("(attrs %s)" % " ".join(a))
+    return out
+
+
+def policy(r):
+    k = r.below(7)
+    if k == 0:
+        return "none"
+    if k == 1:
+        return "(pol (origin 1) none none (comm) reject accept)"
+    if k == 2:
+        return "(pol any none (set + %d) (comm) accept accept)" % r.pick([7, 77])
+    if k == 3:
+        return "(pol any none none (comm %d) pass accept)" % r.pick([4259840300, 77])
+    if k == 4:
+        return "(pol (origin 0) none none (comm) reject accept)"
+    if k == 5:
+        return "(pol any (addr (v4 3232235999)) none (comm) accept accept)"
+    return "(pol any none none (comm) reject accept)"
+
+
+def gen_case(r):
+    k = r.pick([1, 1, 2, 3])
+    role = r.pick(["ebgp", "ebgp", "ibgp", "rrc", "rsc", "confed"])
+    mx = r.pick([1, 1, 1, 2, 2, 3])
+    confed = r.pick([0, 0, 65100])
+    if role in ("ibgp", "rrc"):
+        cluster = "(some %d)" % r.pick([16909060, 16843009]) if r.chance(5, 6) else "none"
+    else:
+        cluster = "none" if r.chance(5, 6) else "(some 16909060)"
+    ctx = "(ctx %s %d (v4 167772417) none %d)" % (role, LASN, confed)
+    sess = "(sess (v4 %d) %s %d ipv4)" % (NBR, cluster, mx)
+    srcs = sources(r, role)
+    # few prefixes, preferably sharing a shard, so that freed ids are re-used
+    npf = 2 + r.below(4)
+    idxs = []
+    cand = list(range(len(PFX)))
+    if k > 1 and r.chance(2, 3):
+        sh = r.below(k)
+        same = [i for i in cand if SHARD[k][i] == sh]
+        if len(same) >= 2:
+            cand = same
+    while len(idxs) < min(npf, len(cand)):
+        i = r.pick(cand)
+        if i not in idxs:
+            idxs.append(i)
+    pfxs = ["(%d %d %d)" % (PFX[i][0], PFX[i][1], SHARD[k][i]) for i in idxs]
+    ats = asets(r)
+    pols = [policy(r) for _ in range(1 + r.below(3))]
+    pol0 = policy(r) if r.chance(1, 3) else "none"
+    live = {}                                  # (src, pfx, rpid) -> True ; rough RIB picture
+
+    def ann(src=None, pfx=None):
+        s = r.below(len(srcs)) if src is None else src
+        p = r.below(len(idxs)) if pfx is None else pfx
+        rp = r.pick([0, 0, 0, 0, 1, 2])
+        live[(s, p, rp)] = True
+        return "(ann %d %d %d %d (v4 %d))" % (s, p, rp, r.below(len(ats)), r.pick(NHS))
+
+    def wd():
+        if live and r.chance(7, 8):
+            key = r.pick(sorted(live))
+            del live[key]
+            return "(wd %d %d %d)" % key
+        return "(wd %d %d %d)" % (r.below(len(srcs)), r.below(len(idxs)), r.pick([0, 0, 1]))
+
+    def held():
+        return set(p for (_, p, _) in live)
+
+    pre = [ann() for _ in range(r.pick([0, 0, 1, 2, 4]))]
+    ops = []
+    n = r.pick([5, 10, 20, 40, 60])
+    while len(ops) < n:
+        kind = r.weighted([("ann", 30), ("wd", 14), ("deliver", 20), ("flush", 12), ("down", 4), ("reset", 6),
+                           ("reuse", 10), ("window", 6)])
+        if kind == "ann":
+            ops.append(ann())
+        elif kind == "wd":
+            ops.append(wd())
+        elif kind == "deliver":
+            ops.append("(deliver %d)" % r.pick([1, 1, 2, 3, 99]))
+        elif kind == "flush":
+            ops.append("flush")
+        elif kind == "down":
+            s = r.below(len(srcs))
+            for key in [x for x in live if x[0] == s]:
+                del live[key]
+            ops.append("(down %d)" % s)
+        elif kind == "reset":
+            ops.append("(reset %s)" % r.pick(["none"] + [str(i) for i in range(len(pols))]))
+        elif kind == "reuse":
+            # remove the last path of a prefix and announce a prefix the RIB does not hold (it gets the
+            # freed id when both live in the same shard) before the next flush
+            h = held()
+            single = [p for p in h if sum(1 for x in live if x[1] == p) == 1]
+            free = [p for p in range(len(idxs)) if p not in h]
+            if single and free:
+                p = r.pick(sorted(single))
+                key = [x for x in live if x[1] == p][0]
+                del live[key]
+                ops.append("(wd %d %d %d)" % key)
+                if r.chance(1, 3):
+                    ops.append("(deliver %d)" % r.pick([1, 1, 2]))
+                if r.chance(1, 6):
+                    ops.append("(reset %s)" % r.pick(["none"] + [str(i) for i in range(len(pols))]))
+                ops.append(ann(None, r.pick(free)))
+            else:
+                ops.append(ann())
+        else:
+            # several sources on one prefix: crossings of the add-path window / changes of the best
+            p = r.below(len(idxs))
+            for _ in range(2 + r.below(2)):
+                ops.append(ann(None, p))
+    return "(c01 (shards %d) %s %s (pol0 %s) (srcs %s) (pfxs %s) (asets %s) (pols %s) (pre%s) (ops%s))" % (
+        k, ctx, sess, pol0, " ".join(srcs), " ".join(pfxs), " ".join(ats), " ".join(pols),
+        "".join(" " + o for o in pre), "".join(" " + o for o in ops))
+
+
+def mutate(r, case):
+    k = r.below(4)
+    if k == 0:
+        return case.replace("(shards ", "(shards 9", 1)
+    if k == 1:
+        return case.replace("(ann 0 ", "(ann 9 ", 1)
+    if k == 2:
+        return case[:-2]
+    return case.replace("(pre", "(pre flush", 1)
+
+
 def gen(seed, n, tier):
-    return []
+    r = Rng(seed * 1000003 + 1)
+    out = []
+    for _ in range(n):
+        c = gen_case(r)
+        if r.chance(1, 60):
+            c = mutate(r, c)
+        out.append(c)
+    return out
